@@ -15,6 +15,7 @@ import gen_common as G
 import gen_checks as GC
 import gen_main
 import gen_main2
+import gen_plumb
 import gen_market
 import gen_tax
 import gen_asset
@@ -187,7 +188,7 @@ def run(ctx):
         "the external sector's own NUMERAIRE pseudo-zone is excluded here (C07 states its position)"]
     # per-group balance lemmas for ALL zones / participant lists (coq/GenMarket, coq/GenTax, coq/GenAsset), each
     # tied to the implementation by its own state correspondence and oracle
-    out.proof = common.proof_status_many([(FAMILY, PROPFILE)] + gen_market.PROOFS + gen_tax.PROOFS + gen_asset.PROOFS + gen_main2.PROOFS)
+    out.proof = common.proof_status_many([(FAMILY, PROPFILE)] + gen_market.PROOFS + gen_tax.PROOFS + gen_asset.PROOFS + gen_main2.PROOFS + gen_plumb.PROOFS)
     gen_market.extra(ctx, out, 150, 2000)
     gen_tax.extra(ctx, out)
     gen_asset.extra(ctx, out)
@@ -195,6 +196,8 @@ def run(ctx):
     # (Main.build) and programs with several currency zones, ExternalSector and gold standard (Main2.build2)
     gen_main.extra(ctx, out, 50, 800)
     gen_main2.extra(ctx, out)
+    # the side conditions reduced to their semantic part, markets supplied from several other zones included (coq/GenPlumb)
+    gen_plumb.extra(ctx, out)
     out.failures.extend(finding_probes())
     return out
 
